@@ -5,7 +5,7 @@ ID = 'C09'
 FLAVORS = ['default']
 RULE = ('ordered pairs (A, B) and sequences A1 A2 A3 B of terminated messages from the generators of C02/C05/C06 (incl. messages that fail midway, leave result blocks unfinished, '
         'leave parameters unread, or contain undefined headers); B is run after A on one context and alone on a fresh context of the implementation and the events of B are compared '
-        '(handler starts, parameters, output, newly queued errors); each scenario is also compared with the model. The error queue is large enough not to overflow and scripts do not query it, '
+        '(handler starts, parameters, output, newly queued errors); in a share of the pairs B arrives unterminated in the same input call as the end of A and is executed by a zero-length call; each scenario is also compared with the model. The error queue is large enough not to overflow and scripts do not query it, '
         'so effects through queue and registers (excepted by the property) are not observed. Non-trivial: A ran a handler and B ran a handler; distinct = distinct lines.')
 MODELLED = 'all per-message and per-unit scratch state of scpi_t (first_output, output_count, input_count, cmd_error, arbitrary_remaining, param_list, cmd_prev) is in ParserModel.ctx'
 ASSUMPTIONS = ['effects that flow through the status registers and the error queue are excepted by the property; "queue drained" notifications (error callback with 0) are dropped from the comparison']
@@ -101,16 +101,25 @@ def streams(tier, rng):
             ins.append(('I', long_a[cut:]))
             if len(B) > 60:
                 B = b'*IDN?\n'
+        Bnt = B.rstrip(b'\r\n')
+        if capb == 256 and Bnt and rng.random() < 0.25:
+            # B arrives unterminated in the same input call as the end of A and is executed by a zero-length (flush) call
+            ins2 = ins[:-1] + [('I', ins[-1][1] + Bnt)]
+            ab = gen.scenario(capb, 64, table, ins2 + [('I', b'')])
+            b = gen.scenario(capb, 64, table, [('I', Bnt), ('I', b'')])
+            pairs.append((len(cases), len(ins2), 1, [x for _, x in ins], Bnt + b' <flush>'))
+            cases += [ab, b]
+            continue
         ab = gen.scenario(capb, 64, table, ins + [('I', B)])
         b = gen.scenario(capb, 64, table, [('I', B)])
         As = [x for _, x in ins]
-        pairs.append((len(cases), len(As), As, B))
+        pairs.append((len(cases), len(As), 0, As, B))
         cases += [ab, b]
 
     def post(cases_, outs):
         res = []
-        for i, na, As, B in pairs:
-            x, y = bevents(outs[i], na), bevents(outs[i + 1], 0)
+        for i, na, nb, As, B in pairs:
+            x, y = bevents(outs[i], na), bevents(outs[i + 1], nb)
             if x != y:
                 res.append((i, 'leak', 'message %r behaves differently after %r than on a fresh context\n  after A: %s\n  fresh   : %s' % (B, As, x[:400], y[:400])))
         return res
